@@ -182,6 +182,7 @@ func C21(c *Ctx) {
 
 func C23(c *Ctx) {
 	c.Note("safety of ReadIndex itself under partitions (etcd/raft, trusted); clock/lease issues; a stale Status() racing with a leader change between validation and proposal")
+	clientOutcomeRules(c, "K1.proposal-answered-by-its-own-command")
 	const r1 = "K1.read-path-chain"
 	c.Rule(r1, "Store.ReadCommand: validateCommand (nil region error) → peer.LinearizableRead()==nil → peer.WaitApplied(index)==nil → commandApplier, where the index waited for is the one LinearizableRead returned; LinearizableRead registers the read context before ReadIndex and returns the index delivered through handleReadStates")
 	if fn := c.Fn("raftstore/store", "Store.ReadCommand"); fn != nil {
